@@ -196,7 +196,11 @@ CLAIMS["C11"] = (
     "reachable from an empty cache a request returns a closure meaning exactly what a fresh retort would build, and keeps "
     "the invariant; C11_all_sites_audited / C11_cache_is_the_modelled_one tie the premise to the code: the list of "
     "mediator.cached_call sites and the body of BuiltinMediator.cached_call are regenerated from /repo on every run and must "
-    "equal the reviewed table (47 sites, every key argument classified). Behavioural tie: on one retort, requests for A then "
+    "equal the reviewed table (47 sites, every key argument classified); C11_cache_key_classes_are_the_reviewed_ones - how "
+    "the objects inside the keys compare (shapes, fields, accessors, crowns: frozen dataclasses comparing all fields, only the "
+    "derived fields_dict left out, hand-written __hash__ coarser than equality) is regenerated from /repo and must equal the "
+    "reviewed list. Behavioural tie: dump histories through union dumpers over a class diamond and convert / get_converter "
+    "histories with and without per-call recipes (all sequences of 2-3 calls vs a fresh retort); on one retort, requests for A then "
     "25 probe loads for B compared with a fresh retort over ordered pairs of 55 mutually confusable types, random longer "
     "histories with failing requests and lru eviction, replace()/extend() on used and unused retorts, per-call conversion recipes.",
     "Trusted: Coq kernel, the ast translator of call sites, the review classifying each key argument (recorded in "
@@ -223,7 +227,10 @@ CLAIMS["C08"] = (
 CLAIMS["C19"] = (
     "Proof (partial: compile / exec / ast.unparse are the interpreter's): C19_repr_is_one_token (lexing repr(s) ++ rest "
     "gives back s and rest for EVERY string: no key can end or extend its own literal); C19_sanitize_identifier / "
-    "C19_prefixed_sanitize_identifier; C19_mangle_terminates_and_fresh; C19_loader/dumper_variable_names_never_collide "
+    "C19_prefixed_sanitize_identifier; C19_mangle_terminates_and_fresh; C19_captured_globals_are_fresh_and_distinct / "
+    "C19_every_captured_name_is_bound_once (the g_ names under which objects without a literal are captured are pairwise "
+    "different and never a namespace or closure name; the loop as it was is refuted, its text is regenerated from /repo and "
+    "the model compared with the function on random namespaces); C19_loader/dumper_variable_names_never_collide "
     "(prefix ++ field id differs from every word the generator writes, every keyword, builtin, path-suffixed variable and "
     "other-prefix name, for every field id; prefixes and vocabulary regenerated from the generator sources); "
     "C19_all_interp_sites_audited + C19_no_raw_site (the 116 interpolation / Template sites of the generators, regenerated "
